@@ -93,6 +93,16 @@ def totp_corpus():
         long += [B("a", 3)]                          # still locked
         long = long[:-2] if False else long
     s.append(long)
+    # 14. a code is good once, also across adjacent time steps (the C05 repair): the code accepted in period c is
+    #     refused as an evaluated failure in period c+1, the period's own code is accepted, an older code never
+    s.append([B("a", 0, "good"), B("a", 31, "prev"), B("a", 3, "good"), B("a", 3, "prev"), B("a", 3, "good"),
+              B("a", 31, "prev"), B("a", 3, "next"), B("a", 3, "good"), B("a", 31, "good"), B("a", 31, "prev"), B("a", 31, "good")])
+    # 15. the next step's code is accepted early and then spent: its own period and the one after refuse it
+    s.append([B("a", 0, "next"), B("a", 3, "good"), B("a", 31, "good"), B("a", 3, "prev"), B("a", 31, "prev"),
+              B("a", 3, "good"), B("a", 3, "next")])
+    # 16. replayed right codes are failures like any other: five of them lock the user out
+    s.append([B("a", 0, "next"), B("a", 61, "prev")] + [B("a", 3, "prev") for _ in range(4)] +
+             [B("a", 3, "good"), B("a", 3601, "good")])
     # 13. sixteen goroutines submit the right code at the same moment: at most one is accepted
     s.append(["catt a 0 auto 16", B("a", 3), "catt a 40 auto 16"] + [B("a", 3) for _ in range(5)] +
              ["catt a 3 auto 16", "catt a 3600 auto 16", "catt b 0 auto 16", "catt b 1 auto 16", "catt b 1 auto 4"])
@@ -122,11 +132,17 @@ def gen_totp(rng, nseq, maxlen):
                 code = rng.choice(["bad"] * 6 + ["good"] * 3 + ["dis"])
             if i == 0:
                 gap = 0
+            if code == "good" and rng.random() < 0.35:
+                code = rng.choice(["prev", "prev", "next"])
+            if profile == "mixed" and rng.random() < 0.3:
+                gap = rng.choice([27, 29, 30, 31, 33, 58, 61])   # walk through adjacent 30 s periods
             ctr = "same" if rng.random() < 0.08 else "auto"
             if rng.random() < 0.03:
                 ops.append("catt %s %d auto %d" % (u, gap, rng.choice([2, 4, 16])))
             elif rng.random() < 0.1 and u not in hdone:
                 via = rng.choice(["verify", "auth"])
+                if code in ("prev", "next"):
+                    code = "good"
                 if code == "good":
                     hdone.add(u)
                 ops.append(H(u, gap, via, code))
@@ -204,7 +220,7 @@ def run(ctx):
     for bi, (k, s, e) in enumerate(blocks):
         if k == "seq":
             for i in range(s, e):
-                if impl[i].endswith(" slow"):
+                if impl[i].endswith(" slow") or impl[i] == "collide":
                     slow_from[bi] = i
                     break
     skip = set()
@@ -257,10 +273,13 @@ def run(ctx):
             if len(g) != 6:
                 ctx.broken.append("TOTP op %r answered %r" % (o, impl[i]))
                 # keep the judge's clock right
-                jops.append("ev %s %s 0 0" % (f[1], f[2]))
+                jops.append("ev %s %s 0 0 -" % (f[1], f[2]))
                 jmeta.append(i)
                 continue
-            jops.append("ev %s %s %s %s" % (f[1], f[2], g[0], g[2]))
+            step = "-"
+            if k == "att" and f[4] in ("good", "prev", "next"):
+                step = str(int(f[3]) + {"good": 0, "prev": -1, "next": 1}[f[4]])
+            jops.append("ev %s %s %s %s %s" % (f[1], f[2], g[0], g[2], step))
             jmeta.append(i)
         elif k == "catt":
             if i in skip:
@@ -268,14 +287,14 @@ def run(ctx):
             g = canon_impl(i).split()
             if len(g) != 6:
                 ctx.broken.append("TOTP op %r answered %r" % (o, impl[i]))
-                jops.append("ev %s %s 0 0" % (f[1], f[2]))
+                jops.append("ev %s %s 0 0 -" % (f[1], f[2]))
                 jmeta.append(i)
                 continue
             trues = int(g[0])
-            jops.append("ev %s %s %s %s" % (f[1], f[2], "1" if trues else "0", g[2]))
+            jops.append("ev %s %s %s %s %s" % (f[1], f[2], "1" if trues else "0", g[2], f[3]))
             jmeta.append(i)
             for _ in range(trues - 1):   # every further acceptance is a second evaluation at the same instant
-                jops.append("ev %s 0 1 0" % f[1])
+                jops.append("ev %s 0 1 0 %s" % (f[1], f[3]))
                 jmeta.append(i)
     verdicts = c.run_driver(ctx, "judge", jops)
     block_of = {}
@@ -308,7 +327,7 @@ def run(ctx):
                                           "judge": ["%d:%s" % (i - s, v) for i, v in bad_by_block[bi]][:20]})
 
     # ---------------------------------------------------------------- coverage
-    outcomes, kth, fcmax = {}, {}, 0
+    outcomes, kth, fcmax, by_code = {}, {}, 0, {}
     tot_att = 0
     distinct = set()
     for i, o in enumerate(ops):
@@ -317,6 +336,8 @@ def run(ctx):
             m = model[i].split()
             tot_att += 1
             outcomes[m[6]] = outcomes.get(m[6], 0) + 1
+            ck = "%s:%s" % (f[4] if f[0] != "catt" else "good", m[6])
+            by_code[ck] = by_code.get(ck, 0) + 1
             fcmax = max(fcmax, int(m[3]))
             if m[6] == "rejected" and int(m[4]) > 0:
                 kk = "lockout_%dh" % ((int(m[4]) + 1800) // 3600)
@@ -331,7 +352,9 @@ def run(ctx):
         "rule": "distinct = (TOTP op kind, code kind, model outcome, failCount, lock-out remaining) tuples plus (limiter sequence, decision) pairs; "
                 "op streams: scripted TOTP corpus (as-found counterexample first) + random attacker/patient/burst/mixed profiles over 1-3 users; "
                 "limiter sequences over %d (rate,burst) pairs with drain/steady/mixed/backwards time; real-time bursts through 4 entry points" % len(set((r, b) for r, b, _, _ in bseqs)),
-        "totp_sequences": len(tseqs), "totp_attempts": tot_att, "totp_outcomes": outcomes, "totp_max_failcount": fcmax,
+        "totp_sequences": len(tseqs), "totp_attempts": tot_att, "totp_outcomes": outcomes, "totp_code_kind_by_outcome": by_code,
+        "totp_right_code_newer_step_accepted": sum(v for k, v in by_code.items() if k.split(":")[0] in ("good", "prev", "next") and k.endswith(":accepted")),
+        "totp_right_code_used_or_older_step_counted_as_failure": sum(v for k, v in by_code.items() if k.split(":")[0] in ("good", "prev", "next") and k.endswith(":rejected")), "totp_max_failcount": fcmax,
         "totp_lockouts_started": kth, "totp_via_handlers": sum(1 for o in ops if o.startswith("hatt")),
         "totp_concurrent_submissions": sum(1 for o in ops if o.startswith("catt")),
         "totp_ops_moved_off_threshold": sum(1 for a, b in zip(raw, ops) if a.split()[0] in ("att", "hatt", "catt") and a.split()[2] != b.split()[2]),
